@@ -167,3 +167,37 @@ func H_C03_lookalike() {
 	vxrt.Assert(len(ta.errors) == 0 && len(ta.logs) == 0, "C03:other-entry-value-unchanged")
 	vxrt.Assert(vxReadFile(path) == before, "C03:file-unchanged-by-passing-calls")
 }
+
+// H_C03_mention: a slot that does not exist yet is created even when an earlier entry's body
+// mentions its header inside a line ("needs: [TestB - 1]"); afterwards both slots replay.
+func H_C03_mention() {
+	vxrt.CI(false)
+	vxrt.YAMLAssume(true)
+	vxrt.EnvFixed("NO_COLOR", "1")
+	dir := vxrt.Dir()
+	path := dir + "/f.snap"
+	mention := []string{"needs: [TestB - 1]", "see [TestB - 1] below", "[TestB - 1] and more", `"[TestB - 1]"`}[vxrt.Choice("mention", 4)]
+	bodyA := "first: 1\n" + mention + "\nlast: 2"
+	vxWriteFile(path, vxFrame("TestA - 1", bodyA))
+	c := WithConfig(Dir(dir), Filename("f"))
+	api := vxrt.Choice("api", 2) // MatchSnapshot, MatchYAML
+	call := func(t *vxMockT, v string) {
+		if api == 0 {
+			c.MatchSnapshot(t, v)
+		} else {
+			c.MatchYAML(t, v)
+		}
+	}
+	tb := vxNewT("TestB")
+	call(tb, "b: new")
+	tb.end()
+	vxrt.Assert(len(tb.errors) == 0 && len(tb.logs) == 1, "C03:new-entry-recorded")
+	got, _, err := vxRefPrev("[TestB - 1]", path)
+	vxrt.Assert(err == nil && got == "b: new", "C03:new-entry-replays")
+	ta, tb2 := vxNewT("TestA"), vxNewT("TestB")
+	call(ta, bodyA)
+	call(tb2, "b: new")
+	ta.end()
+	tb2.end()
+	vxrt.Assert(len(ta.errors)+len(tb2.errors) == 0 && len(ta.logs)+len(tb2.logs) == 0, "C03:other-entry-value-unchanged")
+}
